@@ -700,6 +700,42 @@ func (m *StateMachine) sendInitialActionSet(ctx context.Context) (
 	// it needs to be a non-nil map regardless of the initial update.
 	rlc.PrevConsideredHashes = map[string]struct{}{}
 
+	// The values describing the previous height's finalization are needed
+	// whether we start live or in catchup:
+	// CycleFinalization shifts them into the current validator set
+	// when the replayed block is finalized.
+	// TODO: is it correct to keep the r == 0 check on this?
+	isGenesis := h == m.genesis.InitialHeight && r == 0
+	if isGenesis {
+		// Assuming it's safe to take the reference of the genesis validators.
+		rlc.PrevFinNextValSet = m.genesis.ValidatorSet
+		rlc.PrevFinAppStateHash = string(m.genesis.CurrentAppStateHash)
+
+		// For now, set the previous block hash as the genesis pseudo-block's hash.
+		// But maybe it would be better if the mirror generated this
+		// and sent it as part of the state update.
+		b, err := m.genesis.Header(m.hashScheme)
+		if err != nil {
+			panic(fmt.Errorf(
+				"FATAL: failed to generate genesis block hash: %w", err,
+			))
+		}
+		rlc.PrevBlockHash = string(b.Hash)
+	} else {
+		// TODO: this path does not yet have unit test coverage,
+		// only gcosmos integration test coverage as of writing.
+		_, rlc.PrevBlockHash, rlc.PrevFinNextValSet, rlc.PrevFinAppStateHash, err =
+			m.fStore.LoadFinalizationByHeight(ctx, h-1)
+		if err != nil {
+			m.log.Error(
+				"Failed to load finalization when initializing round lifecycle",
+				"finalization_height", h,
+				"err", err,
+			)
+			return rlc, rer, false
+		}
+	}
+
 	// We have a response -- do we need to call into the consensus strategy,
 	// or do we only need to replay the block?
 	if rer.IsVRV() {
@@ -707,37 +743,7 @@ func (m *StateMachine) sendInitialActionSet(ctx context.Context) (
 		rlc.HeightCommitted = hc
 		rlc.OutgoingActionsCh = initRE.Actions // Should this be part of the Reset method instead?
 
-		// TODO: is it correct to keep the r == 0 check on this?
-		isGenesis := h == m.genesis.InitialHeight && r == 0
-		if isGenesis {
-			// Assuming it's safe to take the reference of the genesis validators.
-			rlc.PrevFinNextValSet = m.genesis.ValidatorSet
-			rlc.PrevFinAppStateHash = string(m.genesis.CurrentAppStateHash)
-
-			// For now, set the previous block hash as the genesis pseudo-block's hash.
-			// But maybe it would be better if the mirror generated this
-			// and sent it as part of the state update.
-			b, err := m.genesis.Header(m.hashScheme)
-			if err != nil {
-				panic(fmt.Errorf(
-					"FATAL: failed to generate genesis block hash: %w", err,
-				))
-			}
-			rlc.PrevBlockHash = string(b.Hash)
-		} else {
-			// TODO: this path does not yet have unit test coverage,
-			// only gcosmos integration test coverage as of writing.
-			_, rlc.PrevBlockHash, rlc.PrevFinNextValSet, rlc.PrevFinAppStateHash, err =
-				m.fStore.LoadFinalizationByHeight(ctx, h-1)
-			if err != nil {
-				m.log.Error(
-					"Failed to load finalization when initializing round lifecycle",
-					"finalization_height", h,
-					"err", err,
-				)
-				return rlc, rer, false
-			}
-
+		if !isGenesis {
 			vrvClone := rer.VRV.Clone()
 			rlc.VRV = &vrvClone
 		}
